@@ -1,8 +1,11 @@
 package sim
 
 import (
+	"database/sql"
+	"reflect"
 	"testing"
 	"time"
+	"unsafe"
 
 	"github.com/agglayer/aggkit/log"
 )
@@ -14,4 +17,22 @@ func nowWall() int64 { return time.Now().Unix() }
 // quietLogs raises the node's log level: log output is never part of the event log.
 func quietLogs() {
 	log.Init(log.Config{Environment: log.EnvironmentProduction, Level: "fatal", Outputs: []string{"/dev/null"}})
+}
+
+// closePrivateDB closes the *sql.DB held in an unexported field of a node
+// object (the node never closes its stores; bounded fd use per worker process).
+func closePrivateDB(obj any, field string) {
+	defer func() { recover() }()
+	v := reflect.ValueOf(obj)
+	if v.Kind() == reflect.Pointer {
+		v = v.Elem()
+	}
+	f := v.FieldByName(field)
+	if !f.IsValid() || f.IsNil() {
+		return
+	}
+	p := reflect.NewAt(f.Type(), unsafe.Pointer(f.UnsafeAddr())).Elem().Interface()
+	if db, ok := p.(*sql.DB); ok && db != nil {
+		db.Close()
+	}
 }
